@@ -1,4 +1,4 @@
-(** * Arith: the number interface of the model.
+(** * Num: the number interface of the model.
 
     Times, coordinates, speeds, ranges and rates are Python [float]s.  Every model
     function is written once, for an arbitrary carrier [F] with operations [ArithOps F].
